@@ -34,7 +34,7 @@ def tla_set(xs):
 
 
 def write_cfg(path, classes, bound, export=True, invariants=True):
-    b = dict(MaxStories=3, Layouts=["plain", "between", "trailing", "both"], MaxSrc=2, MaxCarried=2,
+    b = dict(MaxStories=3, Layouts=["plain", "between", "trailing", "both", "nt1", "blank"], MaxSrc=2, MaxCarried=2,
              MaxItems=3, ILayouts=["bare", "mixed"])
     b.update(bound or {})
     lines = ["SPECIFICATION Spec", "CONSTANTS",
@@ -55,11 +55,11 @@ def write_cfg(path, classes, bound, export=True, invariants=True):
     return b
 
 
-def generate(name, classes, bound, coverage=False):
-    """TLC over MC_merge: theorems checked on the spec, transition table exported"""
+def generate(name, classes, bound, coverage=False, invariants=True):
+    """TLC over MC_merge: theorems checked on the spec (when `invariants`), transition table exported"""
     wd = tlc.workdir("gen-" + name)
     cfg = os.path.join(wd, "MC.cfg")
-    b = write_cfg(cfg, classes, bound)
+    b = write_cfg(cfg, classes, bound, invariants=invariants)
     res = tlc.run("MC_merge", cfg, "gen-" + name, workers=16, coverage=coverage, timeout=3000)
     tlc.require_ok(res, "MC_merge " + name)
     pres = {}
@@ -81,10 +81,11 @@ def generate(name, classes, bound, coverage=False):
 _G = {}
 
 
-def _init(pres, seed, observe=False):
+def _init(pres, seed, observe=False, expose=False):
     _G["pres"] = pres
     _G["seed"] = seed
     _G["observe"] = observe
+    _G["expose"] = expose
 
 
 def _run_chunk(chunk):
@@ -152,8 +153,10 @@ def run_merge_check(report, families, seed, tier, extra_assumptions=None):
     prop = report.prop
     cov = {"states": 0, "transitions": 0, "traces_validated_against_impl": 0, "samples": [],
            "exhaustive": True, "tlc": [], "per_class": {}, "status_counts": {}}
-    for name, classes, bound in families:
-        gen = generate("%s-%s" % (prop, name), classes, bound)
+    for family in families:
+        name, classes, bound = family[:3]
+        with_theorems = family[3] if len(family) > 3 else True
+        gen = generate("%s-%s" % (prop, name), classes, bound, invariants=with_theorems)
         st = gen["stats"]
         cov["states"] += st.get("distinct", 0)
         cov["transitions"] += st.get("generated", 0)
@@ -161,8 +164,9 @@ def run_merge_check(report, families, seed, tier, extra_assumptions=None):
                            "distinct_states": st.get("distinct"), "wall_s": st["wall_s"],
                            "action_coverage": {k: v for k, v in (st.get("coverage") or {}).items()
                                                if k in classes or k == "Init"},
-                           "theorems": ["Inv_Total", "Inv_Order", "Inv_SpecConforms", "Inv_FailAtomic",
-                                        "Inv_Perm", "Inv_Member"]})
+                           "theorems": (["Inv_Total", "Inv_Order", "Inv_SpecConforms", "Inv_FailAtomic",
+                                         "Inv_Perm", "Inv_Member"] if with_theorems else
+                                        ["(none in this run: the theorems over this family are checked by the C01 / C02 / C03 runs)"])})
         # vacuity: every selected class must have produced transitions (counted from the exported transition table;
         # TLC's own -coverage costs ~20 s per run and is only used by `./check selftest`)
         per = {}
@@ -219,6 +223,8 @@ def life_property(kind, clause):
         return ("C13",)
     if clause == "msg_intact":
         return ("C13",)
+    if clause == "msg_expose":
+        return ("C13", "C20")
     if kind == "reload":
         return {"reload_identity": ("C14",), "reload_completed": ("C07", "C14")}.get(clause, ())
     if kind == "remerge" and clause in ("story_seq", "story_perm", "item_seq", "item_perm", "unnamed",
@@ -266,19 +272,25 @@ def _observe_fn(ro):
     return {"view": project.view_ro_xml(ro.xml), "obs": observe.observe(ro)}
 
 
+def _expose_fn(m, cls):
+    from . import expose
+    return expose.exposure(m, cls)
+
+
 def _run_beh_chunk(chunk):
     from . import behave, execute
     out = []
     for bid, beh in chunk:
         try:
-            evs = behave.run_behaviour(bid, beh, _G["seed"], observe=_observe_fn if _G.get("observe") else None)
+            evs = behave.run_behaviour(bid, beh, _G["seed"], observe=_observe_fn if _G.get("observe") else None,
+                                       expose=_expose_fn if _G.get("expose") else None)
             out.append((bid, evs, None))
         except execute.Machinery as e:
             out.append((bid, [], str(e)))
     return out
 
 
-def run_life_check(report, plans, seed, tier, observe=False):
+def run_life_check(report, plans, seed, tier, observe=False, expose=False):
     """plans: list of dict(name, mode, objs, depth, num, cap)."""
     prop = report.prop
     cov = {"states": 0, "transitions": 0, "traces_validated_against_impl": 0, "samples": [],
@@ -297,7 +309,7 @@ def run_life_check(report, plans, seed, tier, observe=False):
         todo = [("%s:%d" % (plan["name"], i), b) for i, b in enumerate(behs)]
         chunks = [todo[i:i + 25] for i in range(0, len(todo), 25)]
         ctx = multiprocessing.get_context("fork")
-        with ctx.Pool(16, initializer=_init, initargs=({}, seed, observe)) as pool:
+        with ctx.Pool(16, initializer=_init, initargs=({}, seed, observe, expose)) as pool:
             results = [r for part in pool.map(_run_beh_chunk, chunks) for r in part]
         events = []
         behmap = dict(todo)
@@ -385,3 +397,41 @@ def judge_sequences(seqs, name, shards=16):
                 seen.add(raw)
                 bad.append(json.loads(raw))
     return bad, {"judged": judged, "states": states}
+
+
+# ------------------------------------------------------------------------------------------
+# Binding C on the repository's own test suite
+# ------------------------------------------------------------------------------------------
+def run_suite_trace(report, seed):
+    """run the pinned pytest suite with the tracer plugin; every `ro += msg` any test performs is judged by Trace_Merge"""
+    import subprocess
+    repo = os.environ.get("VERIF_REPO", "/repo")
+    wd = tlc.workdir("suite-" + report.prop)
+    trace = os.path.join(wd, "trace.json")
+    env = dict(os.environ, MOSROMGR_VERIF="1", MOSROMGR_VERIF_TRACE=trace, PYTHONPATH="%s:%s" % (tlc.VERIF, repo))
+    p = subprocess.run(["/venv/bin/python", "-m", "pytest", "-q", "-p", "no:cacheprovider", "-p", "harness.pytest_plugin"], cwd=repo, env=env, capture_output=True, text=True, timeout=900)
+    cov = {"states": 0, "transitions": 0, "traces_validated_against_impl": 0, "samples": [], "pytest_rc": p.returncode,
+           "pytest_tail": p.stdout.strip().splitlines()[-1:] if p.stdout else []}
+    if not os.path.exists(trace):
+        report.machinery_error("the traced test-suite run produced no trace (pytest rc=%s)" % p.returncode)
+        return cov
+    events = json.load(open(trace))
+    for e in events:
+        e.pop("mid", None)
+        e.pop("has_sink", None)
+    bad, jst = judge_sequences([events], "suite-" + report.prop, shards=1)
+    cov["traces_validated_against_impl"] = jst["judged"]
+    cov["states"] = jst["states"]
+    cov["transitions"] = jst["judged"]
+    cov["events"] = len(events)
+    if events:
+        e = events[0]
+        cov["samples"].append({"id": e["id"], "cls": e["msg"]["cls"], "status": e["status"], "warns": e["warns"]})
+    byid = {e["id"]: e for e in events}
+    for b in bad:
+        for clause in b["clauses"]:
+            if report.prop in life_property(b["k"], clause):
+                ev = byid[b["id"]]
+                report.failure(clause, "suite:" + b["sig"], {"kind": "suite_event", "id": b["id"], "msg": ev["msg"],
+                                                             "status": ev["status"], "warns": ev["warns"]})
+    return cov
